@@ -95,7 +95,8 @@ def frame_obligations():
             state = sorted(a for a in reads if (a not in opts or a in later) and not callable(getattr(cls, a, None)))
             from .repro import data_mutations
             args = {("var", n_) for n_ in ("X", "y", "y_pred", "affinity")}
-            muts += data_mutations(sts, lambda t: t in args)       # the caller's predictions / affinity / data are never modified in place
+            from .repro import may_alias
+            muts += data_mutations(sts, lambda t: may_alias(t, args))       # the caller's predictions / affinity / data are never modified in place
             ok = bool(sts) and not writes and not muts and not state
             obs.append(Ob(f"{cls.__name__}.{meth}: stateless (writes nothing on the object or into its arguments, reads only constructor options)", PROVED if ok else REFUTED,
                           "fx-frame", "P", {"reads": sorted(reads), "writes": sorted(writes), "state read": state, "mutations": muts[:3],
